@@ -73,6 +73,18 @@ type child struct {
 }
 
 func startChild(dbPath string, extra ...string) (*child, error) {
+	// (the port found free may be taken before the child binds it: try again)
+	var c *child
+	var err error
+	for try := 0; try < 5; try++ {
+		if c, err = startChildOnce(dbPath, extra...); err == nil {
+			return c, nil
+		}
+	}
+	return nil, err
+}
+
+func startChildOnce(dbPath string, extra ...string) (*child, error) {
 	port, err := freePort()
 	if err != nil {
 		return nil, err
